@@ -8,6 +8,7 @@ import (
 	"strings"
 	"sync"
 	"testing"
+	"time"
 
 	"pgregory.net/rapid"
 
@@ -16,11 +17,13 @@ import (
 	"verif/gen"
 	"verif/hx"
 	"verif/rc"
+	"verif/wk"
 	"verif/ref"
 )
 
 type job struct {
 	Kind  string // "asm" or "battle"
+	Cfg   int    // asm: which of the assembler configurations (they differ in high bits only)
 	Text  int    // asm: index into Texts
 	W1    int    // battle: indexes into the shared warrior pool (assembled Texts)
 	W2    int
@@ -92,6 +95,7 @@ func genConcCase(t *rapid.T) concCase {
 		} else {
 			j.Kind = "asm"
 			j.Text = rapid.IntRange(0, nt-1).Draw(t, "text")
+			j.Cfg = rapid.IntRange(0, 3).Draw(t, "jcfg")
 		}
 		c.Jobs = append(c.Jobs, j)
 	}
@@ -146,9 +150,14 @@ func judgeConcCase(c concCase, rec *hx.Rec) string {
 	for i, p := range pool {
 		poolBefore[i] = *p.Copy()
 	}
+	// assembler configurations that agree in their low 16 bits
+	asmCfgs := []gmars.SimulatorConfig{cfg, cfg, cfg, cfg}
+	asmCfgs[1].CoreSize, asmCfgs[1].ReadLimit, asmCfgs[1].WriteLimit = 8000+65536, 8000+65536, 8000+65536
+	asmCfgs[2].Processes = 64 + 65536
+	asmCfgs[3].CoreSize, asmCfgs[3].ReadLimit, asmCfgs[3].WriteLimit, asmCfgs[3].Distance = 8000+131072, 8000+131072, 8000+131072, 100+65536
 	do := func(j job) string {
 		if j.Kind == "asm" {
-			return wdString(gmars.CompileWarrior(strings.NewReader(c.Texts[j.Text]), cfg))
+			return wdString(gmars.CompileWarrior(strings.NewReader(c.Texts[j.Text]), asmCfgs[((j.Cfg%4)+4)%4]))
 		}
 		if j.Small {
 			return runBattleJob(small, pool[j.W1], pool[j.W2], j.Off%700+50)
@@ -197,6 +206,27 @@ func judgeConcCase(c concCase, rec *hx.Rec) string {
 		}
 		if got[i] != want[i] {
 			return fmt.Sprintf("job %d (%+v) on %d goroutines gave\n  %s\nsequentially it gave\n  %s", i, c.Jobs[i], c.Goroutines, clip(got[i]), clip(want[i]))
+		}
+	}
+	// history independence: a few assemblies are repeated in a fresh process that has
+	// assembled nothing else, under the same configuration; the result must be the same
+	if bin := os.Getenv("VERIF_WORKER"); bin != "" {
+		checked := 0
+		for i, j := range c.Jobs {
+			if j.Kind != "asm" || checked >= 2 {
+				continue
+			}
+			checked++
+			ac := asmCfgs[((j.Cfg%4)+4)%4]
+			cl := wk.NewClient(bin)
+			rs, st, err := cl.Call(wk.Request{Mode: int(ac.Mode), M: uint64(ac.CoreSize), P: uint64(ac.Processes), L: uint64(ac.Length), D: uint64(ac.Distance), Text: []byte(c.Texts[j.Text]), WantResult: true}, 60*time.Second)
+			cl.Kill()
+			if err != nil || st != wk.OK {
+				panic(fmt.Sprintf("INCOMPLETE: isolated worker failed: %v status %d", err, st))
+			}
+			if rs.Result != want[i] {
+				return fmt.Sprintf("job %d (%+v): in this process (after other assemblies) the text assembles to\n  %s\nin a fresh process under the same configuration to\n  %s", i, j, clip(want[i]), clip(rs.Result))
+			}
 		}
 	}
 	// repeatability in one thread (map iteration order is randomised per range statement)
